@@ -38,27 +38,50 @@ def _ordered(raw_iter):
     return out
 
 
+def _raw(o):
+    if isinstance(o, NDSet):
+        return list(set.__iter__(o))
+    if isinstance(o, NDFrozenSet):
+        return list(frozenset.__iter__(o))
+    return list(o)
+
+
 class NDSet(set):
     def __iter__(self):
         return iter(_ordered(set.__iter__(self)))
 
-    def _wrap(self, r):
-        return NDSet(set.__iter__(r)) if isinstance(r, set) and not isinstance(r, NDSet) else r
-
+    # (no builtin set() calls in here: under CrossHair the name `set` builds a ShellMutableSet)
     def union(self, *a):
-        return NDSet(set.union(set(set.__iter__(self)), *[set(x) for x in a]))
+        items = list(set.__iter__(self))
+        for o in a:
+            for e in _raw(o):
+                if e not in items:
+                    items.append(e)
+        return NDSet(items)
 
     def intersection(self, *a):
-        return NDSet(set.intersection(set(set.__iter__(self)), *[set(x) for x in a]))
+        others = [_raw(o) for o in a]
+        return NDSet([e for e in set.__iter__(self) if all(e in o for o in others)])
 
     def difference(self, *a):
-        return NDSet(set.difference(set(set.__iter__(self)), *[set(x) for x in a]))
+        others = [_raw(o) for o in a]
+        return NDSet([e for e in set.__iter__(self) if not any(e in o for o in others)])
 
     def symmetric_difference(self, a):
-        return NDSet(set.symmetric_difference(set(set.__iter__(self)), set(a)))
+        o = _raw(a)
+        mine = list(set.__iter__(self))
+        return NDSet([e for e in mine if e not in o] + [e for e in o if e not in mine])
 
     def copy(self):
-        return NDSet(set.__iter__(self))
+        return NDSet(list(set.__iter__(self)))
+
+    def issuperset(self, o):
+        mine = list(set.__iter__(self))
+        return all(e in mine for e in _raw(o))
+
+    def issubset(self, o):
+        other = _raw(o)
+        return all(e in other for e in set.__iter__(self))
 
     def __or__(self, o):
         return self.union(o)
